@@ -41,6 +41,12 @@ CHAR_CODEC = {
     'ObjectDescriptor': 'latin-1', 'GeneralizedTime': 'ascii', 'UTCTime': 'ascii',
 }
 CHAR_KINDS = tuple(CHAR_CODEC)
+
+
+def codec_of(T):
+    """Python codec between the characters and the octets of string type T: the type's own, or the one given with the
+    library's documented `encoding=` option (T['enc_opt'])."""
+    return T.get('enc_opt') or CHAR_CODEC[T['k']]
 STRING_KINDS = ('OCTETSTRING', 'BITSTRING') + CHAR_KINDS     # may be segmented in BER
 RECORD_KINDS = ('SEQUENCE', 'SET')
 OF_KINDS = ('SEQUENCEOF', 'SETOF')
@@ -283,3 +289,37 @@ def show_type(T):
     if k == 'CHOICE':
         return '%sCHOICE {%s}' % (pre, ', '.join('%s %s' % (a['name'], show_type(a['t'])) for a in T['alts']))
     return pre + k
+
+
+ENC_OPTS = {'OCTETSTRING': ('utf-8', 'ascii', 'utf-16-be', 'koi8-r'), None: ('utf-8', 'utf-16-be', 'utf-32-be')}
+
+
+def with_enc_opt(T, key, octet_strings=True):
+    """A copy of T whose string leaves carry the library's documented `encoding=` option (about one leaf in two; the codec is a
+    pure function of `key` and the leaf's position, so no random draw is spent and a case replays from its own data).
+    OCTET STRING: any codec - the option governs conversion from and to text only, the wire carries the octets. Character
+    strings: a codec that can spell every character the generator draws and differs from the type's own. -> (T', n leaves)"""
+    import zlib
+    T = from_jsonable(to_jsonable(T))
+    count = [0]
+
+    def walk(t, path):
+        k = t['k']
+        if k in RECORD_KINDS:
+            for c in t['comps']:
+                walk(c['t'], path + '.' + c['name'])
+        elif k in OF_KINDS:
+            walk(t['of'], path + '.*')
+        elif k == 'CHOICE':
+            for a in t['alts']:
+                walk(a['t'], path + '.' + a['name'])
+        elif ((k == 'OCTETSTRING' and octet_strings) or (k in CHAR_KINDS and k not in ('GeneralizedTime', 'UTCTime', 'ObjectDescriptor'))) \
+                and not t.get('alias') and not t.get('own_typeid') and not t.get('enc_opt'):
+            h = zlib.crc32(('%s|%s' % (key, path)).encode())
+            if h % 2:
+                return
+            opts = [o for o in ENC_OPTS.get(k, ENC_OPTS[None]) if k == 'OCTETSTRING' or o != CHAR_CODEC[k]]
+            t['enc_opt'] = opts[(h >> 8) % len(opts)]
+            count[0] += 1
+    walk(T, '')
+    return T, count[0]
